@@ -100,6 +100,9 @@ def run_attrs(pid, tier):
         eq("E derives", marker(it["E"].get("derives")), sorted(want_derives(E)))
         Big = next(d for d in m["defs"] if d["name"] == "Big")
         eq("Big derives (arrays of more than 32 elements)", marker(it["Big"].get("derives")), sorted(want_derives(Big)))
+        # every emitted struct is laid out by the C rules, packed or not
+        for sname in ("T", "V", "VVftable", "D", "DV", "Bt", "Big"):
+            eq(f"{sname} repr(C)", bool(it[sname].get("repr", {}).get("c")), True)
         eq("T packed", bool(it["T"].get("repr", {}).get("packed")), T["packed"])
         if T["packed"]:
             eq("T align attribute on a packed type", it["T"].get("repr", {}).get("align"), NONE)
